@@ -18,7 +18,7 @@ EXPLANATION = (
     "and kept otherwise. R6: tick-scoped buffers are consumed exactly once per tick after their last reader. R7: buffers filled "
     "every frame but flushed only on ticks merge keyed writes instead of overwriting. R8: the update channel is reliable-ordered "
     "and channel ids agree with the channel table.")
-NOT_DECIDED = ("convergence itself; the per-component send-rate gate under per-entity acknowledgement (D10), hide+despawn (D11), removal-then-despawn "
+NOT_DECIDED = ("convergence itself; the per-component send-rate gate under per-entity acknowledgement (D10), removal-then-despawn "
                "zombie (D12), acknowledge-on-receipt then skip-as-outdated (D13) are behavioural and not detected")
 TRUSTED_BASE = ["ComponentTicks::is_changed / Tick::is_newer_than of bevy_ecs", "reliable-ordered channels deliver in order without loss"] + C11.TRUSTED_BASE
 
